@@ -128,6 +128,9 @@ theorem depth_le (v : Nat) : depth g P v ≤ g.n := by
 
 noncomputable def crank (v : Nat) : Int := (depth g P v : Int)
 
+theorem crank_lt (a b : Nat) : crank g P a < crank g P b ↔ depth g P a < depth g P b := by
+  unfold crank; exact Int.ofNat_lt
+
 noncomputable def croot (v : Nat) : Bool := decide (rootOf g P v = v)
 
 open Classical in
@@ -240,8 +243,8 @@ theorem loc_root {v : Nat} (hr : croot g P v = true) :
     countInc g v (fun je => cae g P je.2 && decide (crank g P je.1 < crank g P v)) = 0 := by
   by_contra hne
   obtain ⟨j, e, hJ, hp⟩ := countInc_pos_iff.1 (Nat.one_le_iff_ne_zero.2 hne)
-  simp only [Bool.and_eq_true, decide_eq_true_eq, crank] at hp
-  have := (cae_lower g P hJ hp.1 (by exact_mod_cast hp.2)).1
+  simp only [Bool.and_eq_true, decide_eq_true_eq, crank_lt] at hp
+  have := (cae_lower g P hJ hp.1 hp.2).1
   rw [hr] at this
   cases this
 
@@ -258,22 +261,22 @@ theorem loc_nonroot (hconn : BlocksConnected g P) {v : Nat} (hv : v < g.n)
       rw [h] at hp
       omega
     · intro x hx hpx y hy hpy
-      simp only [Bool.and_eq_true, decide_eq_true_eq, crank] at hpx hpy
+      simp only [Bool.and_eq_true, decide_eq_true_eq, crank_lt] at hpx hpy
       have h1 := (cae_lower g P (mem_incident.1 (show (x.1, x.2) ∈ g.incident v from hx))
-        hpx.1 (by exact_mod_cast hpx.2)).2
+        hpx.1 hpx.2).2
       have h2 := (cae_lower g P (mem_incident.1 (show (y.1, y.2) ∈ g.incident v from hy))
-        hpy.1 (by exact_mod_cast hpy.2)).2
+        hpy.1 hpy.2).2
       rw [h1] at h2
       exact Option.some.inj h2
   · obtain ⟨j, e, hp⟩ := par_exists hconn hv hr
     obtain ⟨hJ, _, hlt⟩ := par_spec g P hp
     apply countInc_pos_iff.2
     refine ⟨j, e, hJ, ?_⟩
-    simp only [Bool.and_eq_true, decide_eq_true_eq, crank]
-    exact ⟨cae_of_par g P hv hr hp, by exact_mod_cast hlt⟩
+    simp only [Bool.and_eq_true, decide_eq_true_eq, crank_lt]
+    exact ⟨cae_of_par g P hv hr hp, hlt⟩
 
 /-- The size-free certificate. -/
-noncomputable def baseCert (hwf : g.wf = true) (hconn : BlocksConnected g P) (size : Nat → Option Int) :
+noncomputable def baseCert (hconn : BlocksConnected g P) (size : Nat → Option Int) :
     GroupCert g size false false where
   gid := cgid g P
   rank := crank g P
@@ -342,12 +345,11 @@ theorem dsz_eq (v : Nat) :
   intro je _
   by_cases h : cae g P je.2 = true ∧ depth g P v < depth g P je.1
   · rw [dif_pos h, if_pos]
-    simp only [Bool.and_eq_true, decide_eq_true_eq, crank]
-    exact ⟨h.1, by exact_mod_cast h.2⟩
+    simp only [Bool.and_eq_true, decide_eq_true_eq, gt_iff_lt, crank_lt]
+    exact h
   · rw [dif_neg h, if_neg]
-    simp only [Bool.and_eq_true, decide_eq_true_eq, crank]
-    intro h'
-    exact h ⟨h'.1, by exact_mod_cast h'.2⟩
+    simp only [Bool.and_eq_true, decide_eq_true_eq, gt_iff_lt, crank_lt]
+    exact h
 
 theorem dsz_sumEq : SumEq g (cae g P) (crank g P) (dsz g P) := fun i _ => dsz_eq g P i
 
@@ -364,7 +366,7 @@ theorem dsz_pos : ∀ (m v : Nat), g.n - depth g P v ≤ m → 1 ≤ dsz g P v :
       obtain ⟨je, _, rfl⟩ := List.mem_map.1 hx
       split
       · rename_i h
-        simp only [Bool.and_eq_true, decide_eq_true_eq, crank] at h
+        simp only [Bool.and_eq_true, decide_eq_true_eq, gt_iff_lt, crank_lt] at h
         have := depth_le g P je.1
         omega
       · exact le_refl _
@@ -379,7 +381,7 @@ theorem dsz_pos : ∀ (m v : Nat), g.n - depth g P v ≤ m → 1 ≤ dsz g P v :
       obtain ⟨je, _, rfl⟩ := List.mem_map.1 hx
       split
       · rename_i h
-        simp only [Bool.and_eq_true, decide_eq_true_eq, crank] at h
+        simp only [Bool.and_eq_true, decide_eq_true_eq, gt_iff_lt, crank_lt] at h
         have := depth_le g P je.1
         have := ih je.1 (by omega)
         omega
@@ -398,8 +400,8 @@ theorem dsz_le_par {v j e : Nat} (hv : v < g.n) (hr : croot g P v = false)
       if cae g P je.2 && decide (crank g P je.1 > crank g P j) then dsz g P je.1 else 0 := by
     refine List.mem_map.2 ⟨(v, e), mem_incident.2 hJ.symm, ?_⟩
     rw [if_pos]
-    simp only [Bool.and_eq_true, decide_eq_true_eq, crank]
-    exact ⟨hae, by exact_mod_cast hlt⟩
+    simp only [Bool.and_eq_true, decide_eq_true_eq, gt_iff_lt, crank_lt]
+    exact ⟨hae, hlt⟩
   have := List.single_le_sum (l := (g.incident j).map fun je =>
       if cae g P je.2 && decide (crank g P je.1 > crank g P j) then dsz g P je.1 else 0) (by
     intro x hx
@@ -411,7 +413,7 @@ theorem dsz_le_par {v j e : Nat} (hv : v < g.n) (hr : croot g P v = false)
 
 variable {g P}
 
-theorem dsz_le_root (hconn : BlocksConnected g P) :
+theorem dsz_le_root (hwf : g.wf = true) (hconn : BlocksConnected g P) :
     ∀ (m v : Nat), v < g.n → depth g P v ≤ m → dsz g P v ≤ dsz g P (rootOf g P v) := by
   intro m
   induction m with
@@ -425,10 +427,87 @@ theorem dsz_le_root (hconn : BlocksConnected g P) :
     cases hr : croot g P v
     · obtain ⟨j, e, hp⟩ := par_exists hconn hv hr
       obtain ⟨hJ, hs, hlt⟩ := par_spec g P hp
-      have hj := (joins_lt (by assumption) hJ).2
-      sorry
+      have hj := (joins_lt hwf hJ).2
+      have h1 := dsz_le_par g P hv hr hp
+      have h2 := ih j hj (by omega)
+      rw [← rootOf_congr g P hs] at h2
+      omega
     · simp only [croot, decide_eq_true_eq] at hr
       rw [hr]
+
+theorem blockOf_congr {u v : Nat} (h : P.same u v) : blockOf g P u = blockOf g P v := by
+  ext w
+  exact ⟨fun h' => P.trans _ _ _ (P.symm _ _ h) h', fun h' => P.trans _ _ _ h h'⟩
+
+theorem blockSize_congr {u v : Nat} (h : P.same u v) : blockSize g P u = blockSize g P v := by
+  unfold blockSize; rw [blockOf_congr h]
+
+open Classical in
+theorem blockSize_eq {v : Nat} (hv : v < g.n) :
+    blockSize g P v = ((Finset.range g.n).filter fun w => cgid g P w = cgid g P v).card := by
+  have hset : blockOf g P v = {w : Fin g.n | cgid g P w.1 = cgid g P v} := by
+    ext w
+    show P.same v w.1 ↔ cgid g P w.1 = cgid g P v
+    rw [← realises g P v w.1 hv w.2]
+    exact eq_comm
+  unfold blockSize
+  rw [hset, ncard_fin g.n (fun w => cgid g P w = cgid g P v)]
+
+theorem blockSize_rng {v : Nat} (hv : v < g.n) : 1 ≤ blockSize g P v ∧ blockSize g P v ≤ g.n := by
+  classical
+  rw [blockSize_eq hv]
+  constructor
+  · apply Finset.card_pos.2
+    exact ⟨v, by simp [hv]⟩
+  · have := Finset.card_filter_le (Finset.range g.n) (fun w => cgid g P w = cgid g P v)
+    simpa using this
+
+theorem dsz_root (hwf : g.wf = true) (hconn : BlocksConnected g P) {r : Nat} (hr : r < g.n)
+    (hroot : croot g P r = true) : dsz g P r = (blockSize g P r : Int) := by
+  classical
+  rw [blockSize_eq hr]
+  exact root_ds_eq_card hwf (baseCert hconn (fun _ => none)) (dsz g P) (dsz_sumEq g P) r hr hroot
+
+theorem croot_rootOf {v : Nat} (hv : v < g.n) : croot g P (rootOf g P v) = true := by
+  simp only [croot, decide_eq_true_eq]
+  exact rootOf_idem g P hv
+
+theorem dsz_le_block (hwf : g.wf = true) (hconn : BlocksConnected g P) {v : Nat} (hv : v < g.n) :
+    dsz g P v ≤ (blockSize g P v : Int) := by
+  have h1 := dsz_le_root hwf hconn _ v hv le_rfl
+  have hr := rootOf_spec g P hv
+  rw [dsz_root hwf hconn hr.1 (croot_rootOf hv), ← blockSize_congr hr.2] at h1
+  exact h1
+
+/-- Completeness: a valid partition is realised by the ids of some certificate. -/
+theorem ok_cert (hwf : g.wf = true) (size : Nat → Option Int) (ws pe : Bool)
+    (hok : PartitionOK g P size) : ∃ C : GroupCert g size ws pe, Realises g.n P C.gid := by
+  obtain ⟨hconn, hsize⟩ := hok
+  have hconn : BlocksConnected g P := hconn
+  let B := baseCert hconn size
+  refine ⟨{ gid := cgid g P, rank := crank g P, root := croot g P, ae := cae g P,
+            ds := dsz g P, ts := fun v => (blockSize g P v : Int),
+            gid_rng := B.gid_rng, rank_rng := B.rank_rng, root_iff := B.root_iff,
+            root_gid := B.root_gid, ae_rank := B.ae_rank, loc := B.loc, ae_gid := B.ae_gid,
+            sz_rng := ?_, sz_le := ?_, sz_root := ?_, sz_sum := ?_, sz_spec := ?_, sz_edge := ?_ },
+          realises g P⟩
+  · intro _ i hi
+    have h1 := dsz_pos' g P i
+    have h2 := dsz_le_block hwf hconn hi
+    have h3 := blockSize_rng (P := P) hi
+    refine ⟨h1, ?_, ?_, ?_⟩ <;> omega
+  · intro _ i hi
+    exact dsz_le_block hwf hconn hi
+  · intro _ i hi hr
+    exact dsz_root hwf hconn hi hr
+  · intro _ i _
+    exact dsz_eq g P i
+  · intro _ i s hi hs
+    exact hsize i s hi hs
+  · intro _ _ k u v hk hae
+    have hJ : Joins g k u v := Or.inl hk
+    show (blockSize g P u : Int) = (blockSize g P v : Int)
+    rw [blockSize_congr (cae_same g P hJ hae)]
 
 end Sizes
 
